@@ -21,7 +21,8 @@ ASSUMPTIONS = ["the fault plan counts user-code entries of the chosen definition
                "g++-12 -O1 build of the working tree with harness-side shims"]
 FLOORS = {"captured_throws": {"quick": 300, "thorough": 5000}, "later_activations_checked": {"quick": 400, "thorough": 6000},
           "outside_cone_runs_compared": {"quick": 5000, "thorough": 80000}, "try_except_cases": {"quick": 100, "thorough": 1500},
-          "thrower_not_first_in_child": {"quick": 40, "thorough": 600}}
+          "thrower_not_first_in_child": {"quick": 40, "thorough": 600}, "map_key_throws": {"quick": 150, "thorough": 2500},
+          "map_other_key_runs_compared": {"quick": 2000, "thorough": 30000}, "map_error_ticks_checked": {"quick": 150, "thorough": 2500}}
 BATCH = 30
 
 
@@ -89,6 +90,61 @@ def gen_pair(rng, name):
     return ok, bad
 
 
+def gen_map_pair(rng, name):
+    """A keyed map with per-key error capture: the thrower sits inside the mapped function, the fault plan picks global
+    occurrences of its user code (whichever key's instance is evaluated then)."""
+    from .c10 import gen_key_history
+    start, end = 0, rng.choice([20, 30, 45])
+    c = Case(name, start, end)
+    uid = UID(100)
+    c.cscripts[1] = gen_key_history(rng, start, end, rng.choice([3, 5, 8]))
+    g = ProgGen(rng, c, uid, allow_sub=False, allow_fb=False, allow_sched=False)
+    body = g.body("f", ["e_"], rng.choice([2, 3, 5, 7]), 5, True)
+    for st in body:
+        if st.op == "src":
+            st.kw["rel"] = 1
+    cands = [st for st in body if st.op in ("pass", "add2", "add3", "acc", "count", "sample", "halfgate", "thrower") and st.dst]
+    if not cands:
+        return None
+    x = rng.choice(cands)
+    u = uid.n + 1
+    if rng.random() < 0.5:
+        ret = body.pop()
+        body.append(S("ind_", "delay", "e_", uid=u, k=rng.choice([2, 3, 5])))
+        body.append(S("ind2_", "pass", "ind_", uid=u + 1))
+        body.append(ret)
+    c.graphs["fn0"] = [S("e_", "pass", "p0", uid=90)] + body
+    c.graphs["main"] = [S("d", "csrc", shape="tsd", uid=1), S("m", "map", "d", fn="fn1:0"), S("", "cmirror", "m", uid=11),
+                        S("", "maperr", "m", uid=12)]
+    c.meta.update(how="map", thrower=x.uid(), entry_uid=90, kind="fn1")
+    try:
+        M.flatten(_solo_of(c))
+    except Exception:
+        return None
+    ok = copy.deepcopy(c)
+    ok.name = name + "_ok"
+    ok.meta["role"] = "ok"
+    bad = copy.deepcopy(c)
+    bad.name = name + "_bad"
+    bad.meta["role"] = "bad"
+    pattern = rng.choice(["first", "consecutive", "scattered", "scattered", "many"])
+    occs = {"first": [1], "consecutive": [2, 3, 4], "scattered": sorted(rng.sample(range(1, 25), 4)),
+            "many": sorted(rng.sample(range(1, 60), 15))}[pattern]
+    bad.faults = [(x.uid(), "eval", o) for o in occs]
+    bad.meta["pattern"] = pattern
+    return ok, bad
+
+
+def _solo_of(c):
+    """The mapped function as a nested call on one scripted element (dependency analysis only)."""
+    s = Case("solo", c.start, c.end)
+    s.scripts = {u: list(sc) for u, sc in c.scripts.items()}
+    s.scripts[1001] = [(c.start, 1)]
+    s.graphs["sub0"] = copy.deepcopy(c.graphs["fn0"])
+    s.graphs["main"] = [S("el", "src", uid=1001, mode=1), S("o", "nested", "el", sid=0), S("", "rec", "o", uid=1004)]
+    return s
+
+
 def generate(rng, tier, seed):
     n = 300 if tier == "quick" else 5000
     cases = []
@@ -98,6 +154,15 @@ def generate(rng, tier, seed):
         k += 1
         if pr:
             cases += list(pr)
+    nm = 120 if tier == "quick" else 2000
+    k = 0
+    got = 0
+    while got < nm:
+        pr = gen_map_pair(rng, f"c15m_{seed}_{k}")
+        k += 1
+        if pr:
+            cases += list(pr)
+            got += 1
     return cases
 
 
@@ -121,11 +186,213 @@ def summarize(run):
     return evals, throws, errs, cyc
 
 
+def summarize_map(case, run):
+    """Per child instance (identified by key and start cycle): user-code runs, throws; plus both mirrors."""
+    from .c10 import epochs_from_writes
+    from .gen_coll import parse_dumps, write_log
+    gparent, gstart, gstop = {}, {}, {}
+    throws = []                      # (gid, t, occ)
+    stack = []
+    tnow = None
+    in_cycle = False
+    for seq, kind, tk in run.events:
+        if kind == "C<" and tk[0] == "0":
+            tnow = int(tk[1])
+            in_cycle = True
+        elif kind == "C>" and tk[0] == "0":
+            in_cycle = False
+        elif kind == "G+":
+            gparent[int(tk[0])] = int(tk[1])
+            gstart[int(tk[0])] = tnow if tnow is not None else case.start
+        elif kind == "G->":
+            gstop[int(tk[0])] = tnow if in_cycle else "end-of-run"
+        elif kind == "E<":
+            stack.append(int(tk[0]))
+        elif kind == "E>":
+            if stack:
+                stack.pop()
+        elif kind == "u.throw":
+            throws.append((stack[-1] if stack else -1, tnow, int(tk[2])))
+            # an exception unwinds the brackets of the throwing node and of the enclosing map node
+            stack = []
+    inst = {}
+    for ue in run.uevals():
+        if gparent.get(ue.gid, -1) >= 0:
+            inst.setdefault(ue.gid, {})[(ue.uid, ue.t)] = (ue.out, tuple((x[0], x[3]) for x in ue.ins))
+    entry = case.meta["entry_uid"]
+    ident = {}
+    for gid, runs in inst.items():
+        firsts = sorted((t, v) for (u, t), (o, v) in runs.items() if u == entry)
+        if firsts:
+            ident[gid] = (firsts[0][1][0][1] // 1000, gstart.get(gid))
+    eps = epochs_from_writes(dict(write_log(run).get(1, [])), case.end)
+    dumps = parse_dumps(run)
+    out_m = {t: d for t, d, _ in dumps.get(11, [])}
+    err_m = {t: d for t, d, _ in dumps.get(12, [])}
+    return dict(inst=inst, ident=ident, throws=throws, gstop=gstop, eps=eps, out=out_m, err=err_m)
+
+
+def check_map(case, tr):
+    res = Result(signature=case.text().split("\n", 1)[1])
+    run = tr.runs[0]
+    key = case.name.rsplit("_", 1)[0]
+    if case.meta["role"] == "ok":
+        if run.error:
+            res.violations.append(Violation(f"fault-free run failed: {run.error}"))
+        _ok_runs[key] = summarize_map(case, run)
+        return res
+    V = res.violations
+    if run.error:
+        V.append(Violation(f"run with per-key error capture did not continue: {run.error[:200]}"))
+        return res
+    if key not in _ok_runs:
+        res.inconclusive = "fault-free twin missing"
+        return res
+    ok = _ok_runs.pop(key)
+    bad = summarize_map(case, run)
+    thrower = case.meta["thrower"]
+    # dependency structure inside the mapped function
+    flat = M.flatten(_solo_of(case))
+    children = {i.id: set() for i in flat.insts}
+    for i in flat.insts:
+        for r in i.ins:
+            children[r.target.id].add(i.id)
+    th_ids = [i.id for i in flat.insts if i.uid == thrower]
+    desc, stack = set(), list(th_ids)
+    while stack:
+        k = stack.pop()
+        if k in desc:
+            continue
+        desc.add(k)
+        stack += list(children[k])
+    anc, stack = set(), [r.target.id for i in flat.insts if i.uid == thrower for r in i.ins]
+    while stack:
+        k = stack.pop()
+        if k in anc:
+            continue
+        anc.add(k)
+        stack += [r.target.id for r in flat.insts[k].ins]
+    anc_uids = {flat.insts[k].uid for k in anc if flat.insts[k].uid not in (None, 1001, 1004)}
+    by_ident_ok = {v: g for g, v in ok["ident"].items()}
+    by_ident_bad = {v: g for g, v in bad["ident"].items()}
+    throwing = {}                       # ident -> sorted throw cycles
+    for gid, t, occ in bad["throws"]:
+        idn = bad["ident"].get(gid)
+        if idn is None:
+            # the instance threw before its entry node logged anything: cannot happen (the entry is first), report
+            V.append(Violation(f"throw at t={t} inside an unidentified child graph {gid}"))
+            continue
+        throwing.setdefault(idn, []).append((t, occ))
+    other_runs = 0
+    other_insts = 0
+    # 1. every other key's instance is untouched
+    for idn in set(by_ident_ok) | set(by_ident_bad):
+        if idn in throwing:
+            continue
+        a = ok["inst"].get(by_ident_ok.get(idn), {})
+        b = bad["inst"].get(by_ident_bad.get(idn), {})
+        other_insts += 1
+        other_runs += len(a)
+        if a != b:
+            d = sorted(set(a.items()) ^ set(b.items()), key=lambda kv: kv[0][1])[:3]
+            V.append(Violation(f"key {idn[0]} (instance started t={idn[1]}) never failed but its runs differ from the fault-free run "
+                               f"(failing keys {sorted(k for k, _ in throwing)}): {d}"))
+        ga, gb = by_ident_ok.get(idn), by_ident_bad.get(idn)
+        if ga is not None and gb is not None and ok["gstop"].get(ga) != bad["gstop"].get(gb):
+            V.append(Violation(f"key {idn[0]} (instance started t={idn[1]}) never failed but stopped at t={bad['gstop'].get(gb)} "
+                               f"instead of t={ok['gstop'].get(ga)}"))
+    # 2. failing instances: same activations of the thrower, identical upstream runs, identical history before the first throw
+    later = 0
+    for idn, lst in throwing.items():
+        a = ok["inst"].get(by_ident_ok.get(idn), {})
+        b = bad["inst"].get(by_ident_bad.get(idn), {})
+        tc = sorted(t for t, _ in lst)
+        ok_act = sorted(t for (u, t) in a if u == thrower)
+        act = sorted([t for (u, t) in b if u == thrower] + tc)
+        later += sum(1 for t in ok_act if t > tc[0])
+        if ok_act != act:
+            V.append(Violation(f"key {idn[0]}: failing node uid {thrower} activations {act[:10]} differ from the fault-free run "
+                               f"{ok_act[:10]} after a captured error (threw at {tc[:6]})"))
+        for u in anc_uids | {case.meta["entry_uid"]}:
+            ra = {k: v for k, v in a.items() if k[0] == u}
+            rb = {k: v for k, v in b.items() if k[0] == u}
+            if ra != rb:
+                V.append(Violation(f"key {idn[0]}: uid {u} is upstream of the failing node but ran at {sorted(t for _, t in rb)[:10]} "
+                                   f"instead of {sorted(t for _, t in ra)[:10]} (threw at {tc[:6]})"))
+        pa = {k: v for k, v in a.items() if k[1] < tc[0]}
+        pb = {k: v for k, v in b.items() if k[1] < tc[0]}
+        if pa != pb:
+            V.append(Violation(f"key {idn[0]}: runs before the first throw at t={tc[0]} differ from the fault-free run"))
+    # 3. errors are reported under the failing key only, once per throwing cycle, in that cycle, carrying what()
+    def epoch_of(k, t):
+        for ep in bad["eps"].get(k, []):
+            if ep["start"] <= t and (ep["stop"] is None or t < ep["stop"]):
+                return ep["start"]
+        return None
+    thr_by_t = {}
+    for idn, lst in throwing.items():
+        for t, occ in lst:
+            thr_by_t.setdefault(t, {})[idn[0]] = occ
+    err_ticks = 0
+    for t in sorted(set(bad["err"]) | set(thr_by_t)):
+        d = bad["err"].get(t)
+        want = thr_by_t.get(t, {})
+        if d is None:
+            V.append(Violation(f"keys {sorted(want)} failed at t={t} but the per-key error output did not tick"))
+            continue
+        modk = {int(k) for k in d["modk"]}
+        if modk != set(want):
+            V.append(Violation(f"error output at t={t}: ticked keys {sorted(modk)} != keys whose instance failed {sorted(want)}"))
+        for k, occ in want.items():
+            it = d["items"].get(str(k))
+            err_ticks += 1
+            if it is None or f"verif-fault uid={thrower} phase=eval occ={occ}" not in it.get("val", "").replace("_", " "):
+                V.append(Violation(f"error output at t={t}: entry of key {k} does not carry the exception message: "
+                                   f"{(it or {}).get('val', '<missing>')[:100]!r}"))
+        # entries present = keys whose current epoch has failed so far
+        have = {int(k) for k, it in d["items"].items() if it["v"]}
+        exp_have = set()
+        for idn, lst in throwing.items():
+            if any(tt <= t for tt, _ in lst) and epoch_of(idn[0], t) == idn[1]:
+                exp_have.add(idn[0])
+        if have != exp_have:
+            V.append(Violation(f"error output at t={t}: holds entries for keys {sorted(have)} but the live instances that failed so "
+                               f"far are {sorted(exp_have)}"))
+    if ok["err"]:
+        V.append(Violation(f"fault-free run produced error ticks at {sorted(ok['err'])[:5]}"))
+    # 4. the map output of every key epoch that never failed is the fault-free stream
+    def streams(m):
+        out = {}
+        for t in sorted(m):
+            for k in m[t]["modk"]:
+                it = m[t]["items"].get(k)
+                out.setdefault((int(k), epoch_of(int(k), t)), []).append((t, it["val"] if it else None))
+        return out
+    sa, sb = streams(ok["out"]), streams(bad["out"])
+    out_cmp = 0
+    for ke in set(sa) | set(sb):
+        if ke in throwing:
+            continue
+        out_cmp += len(sa.get(ke, []))
+        if sa.get(ke) != sb.get(ke):
+            V.append(Violation(f"map output of key {ke[0]} (epoch from t={ke[1]}, never failed) differs from the fault-free run: "
+                               f"{sb.get(ke, [])[:5]} != {sa.get(ke, [])[:5]}"))
+    del V[8:]
+    n_thr = len(bad["throws"])
+    res.counters = {"map_key_throws": n_thr, "map_error_ticks_checked": err_ticks, "map_other_key_runs_compared": other_runs,
+                    "map_other_instances": other_insts, "map_other_key_output_ticks": out_cmp,
+                    "map_later_activations_checked": later, "map_failing_instances": len(throwing)}
+    res.nontrivial = n_thr >= 1 and other_insts >= 1
+    return res
+
+
 def check(case, tr):
     res = Result(signature=case.text().split("\n", 1)[1])
     if tr.build_error:
         res.violations.append(Violation(f"valid program rejected at build: {tr.build_error}"))
         return res
+    if case.meta.get("how") == "map":
+        return check_map(case, tr)
     run = tr.runs[0]
     key = case.name.rsplit("_", 1)[0]
     if case.meta["role"] == "ok":
